@@ -77,7 +77,7 @@ func runHistory(r *Rng, cfg histCfg, replaySteps []string) (h *HistRunner, err e
 			}
 		}
 	} else {
-		for k := 0; k < cfg.steps; k++ {
+		for k := 0; k < cfg.steps || (h.pattern != nil && k < cfg.steps+600); k++ {
 			st := h.GenStep(r, cfg.nsess, cfg.profile)
 			if err := h.Exec(st); err != nil {
 				return h, fmt.Errorf("step %q: %w", st, err)
@@ -562,6 +562,19 @@ func runHistOracle(args []string) int {
 	for k := 0; k < *n; k++ {
 		hr := r.Fork()
 		cfg.nsess = hr.Range(1, 4)
+		cfg.profile = *profile
+		if cfg.props["C02"] {
+			// C02: every fourth history holds a burst against a stalled observer, every fourth a batch creation
+			// followed by an in-place change of one member, every fourth up to three stale-view STOREs (hist_c02.go)
+			switch k % 4 {
+			case 1:
+				cfg.profile += ",burst"
+			case 2:
+				cfg.profile += ",stale"
+			case 3:
+				cfg.profile += ",batch"
+			}
+		}
 		h, err := runHistory(hr, cfg, nil)
 		if h == nil {
 			fmt.Fprintln(os.Stderr, "history setup failed:", err)
